@@ -26,7 +26,7 @@ type GenOpts struct {
 	NoHeaderRows     bool
 	NoEmptyParas     bool
 	NoStyledRuns     bool
-	NoAdjacentBreaks bool // never two line breaks with nothing but blanks between them
+	NoAdjacentBreaks bool // never two line breaks with nothing but blanks and tabs between them
 	NoEdgeWhite      bool // the first and last inline item of every paragraph is a text token or symbol
 }
 
@@ -236,7 +236,8 @@ func (g *genState) para(plain bool, maxRuns int) Para {
 			case KBreak:
 				lastBreak = true
 			case KTab:
-				lastBreak = false
+				// a tab leaves lastBreak unchanged: a line holding only blanks and
+				// tabs is a blank line for NoAdjacentBreaks
 			}
 			run.Items = append(run.Items, it)
 		}
